@@ -208,6 +208,68 @@ fn maps_family(paths: &[PathBuf; 3], rep: &mut Report) {
     rep.count("map_assignments", total as u64 * 2);
 }
 
+/// Whole-map decisions over LARGE trees (4096..9000 paths a side): a planner that splits the key space, batches or
+/// parallelises must still give exactly the per-path decisions for the sorted union - including paths that only one
+/// side has and that sort before, between and after everything the other side has - and must be mirror-symmetric.
+fn big_maps(seed: u64, idx: u64, rep: &mut Report) {
+    let mut rng = Rng::derive(seed, 181, idx);
+    let fp = |v: u8| Fingerprint { blake3: [v; 32], ftype: FileType::File };
+    let n = *rng.pick(&[4095usize, 4096, 4097, 4200, 6000, 8192, 9000]);
+    let mut universe: Vec<PathBuf> = (0..n).map(|i| PathBuf::from(format!("d{:03}/f{:05}", i % 97, i))).collect();
+    // names that sort before / after every generated path, and between two of them
+    let outliers = ["AUTHORS", "0-first", "CHANGES", "d000/f", "d050/zz", "zz-last", "~", "d096/zzzz"];
+    for o in outliers {
+        universe.push(PathBuf::from(o));
+    }
+    let vals: [Option<u8>; 3] = [None, Some(1), Some(2)];
+    let mut asg: Vec<[Option<u8>; 3]> = Vec::with_capacity(universe.len());
+    for i in 0..universe.len() {
+        let outlier = i >= n;
+        // most paths: in sync with the base; a few per cent: every other combination
+        let (a, b, z) = if !outlier && rng.below(100) < 94 { (Some(1), Some(1), Some(1)) } else { (*rng.pick(&vals), *rng.pick(&vals), *rng.pick(&vals)) };
+        asg.push([a, b, z]);
+    }
+    // the first of the outliers is always "B only", the last always "A only": one side's smallest / largest path is missing on the other
+    asg[n] = [None, Some(2), *rng.pick(&vals)];
+    asg[n + 5] = [Some(2), None, *rng.pick(&vals)];
+    let mk = |m: usize| -> FpMap { universe.iter().zip(asg.iter()).filter_map(|(p, v)| v[m].map(|x| (p.clone(), fp(x)))).collect() };
+    let (ma, mb, mz) = (mk(0), mk(1), mk(2));
+    for trust in [true, false] {
+        for mirrored in [false, true] {
+            rep.evaluations += 1;
+            let (xa, xb) = if mirrored { (&mb, &ma) } else { (&ma, &mb) };
+            let got = match guarded(|| reconcile(xa, xb, &mz, trust)) {
+                Caught::Ok(v) => v,
+                Caught::Panicked(m) => {
+                    rep.violation("C18|reconcile|panic", json!({"seed": seed, "case": idx, "panic": m}));
+                    continue;
+                }
+            };
+            let mut want: Vec<(PathBuf, RAct)> = Vec::new();
+            let mut order: Vec<usize> = (0..universe.len()).collect();
+            order.sort_by(|x, y| universe[*x].cmp(&universe[*y]));
+            for i in order {
+                let (a, b) = if mirrored { (asg[i][1], asg[i][0]) } else { (asg[i][0], asg[i][1]) };
+                if a.is_none() && b.is_none() {
+                    continue;
+                }
+                let w = table(a, b, if trust { asg[i][2] } else { None });
+                if w != RAct::Noop {
+                    want.push((universe[i].clone(), w));
+                }
+            }
+            let gotc: Vec<(PathBuf, RAct)> = got.iter().map(|(p, a)| (p.clone(), conv(*a))).collect();
+            if gotc != want {
+                let missing: Vec<String> = want.iter().filter(|w| !gotc.contains(w)).take(4).map(|w| format!("{w:?}")).collect();
+                let extra: Vec<String> = gotc.iter().filter(|g| !want.contains(g)).take(4).map(|g| format!("{g:?}")).collect();
+                rep.violation("C18|reconcile|map-differs-from-table|large-tree", json!({"seed": seed, "case": idx, "paths": n, "trust": trust, "mirrored": mirrored, "missing": missing, "unexpected": extra, "got_len": gotc.len(), "want_len": want.len()}));
+            }
+        }
+    }
+    rep.distinct.insert(format!("big-map|n{n}"));
+    rep.count("large_tree_maps", 1);
+}
+
 pub fn run(seed: u64, thorough: bool, cases: Option<u64>) -> Report {
     let mut rep = Report::default();
     quotient(&mut rep);
@@ -216,5 +278,8 @@ pub fn run(seed: u64, thorough: bool, cases: Option<u64>) -> Report {
     }
     let n = cases.unwrap_or(if thorough { 200_000 } else { 20_000 });
     rep.merge(par_cases(n, |i, r| data_independence(seed, i, r)));
+    if !crate::util::tiny() {
+        rep.merge(par_cases(if thorough { 200 } else { 24 }, |i, r| big_maps(seed, i, r)));
+    }
     rep
 }
